@@ -54,6 +54,10 @@ def big_chain(rng, coin, nout):
         outs = [TxOut(1 + i, b"\x76\xa9\x14" + rbytes(rng, 20) + b"\x88\xac") for i in range(per_block)]
         t = Tx(1, [TxIn(rbytes(rng, 32), 0, rbytes(rng, 20000), 0xFFFFFFFF)], outs, 0)
         cb.add_block(txs=[t])
+    # the last rows of tx_in / tx_out are longer than any small writer buffer (a row that a buffered writer hands to
+    # write(2) directly): a size limit cutting inside them must not go unnoticed
+    last = Tx(1, [TxIn(rbytes(rng, 32), 1, rbytes(rng, 30000), 0xFFFFFFFF)], [TxOut(5, b"\x76\xa9\x14" + rbytes(rng, 20) + b"\x88\xac"), TxOut(6, rbytes(rng, 30000))], 0)
+    cb.add_block(txs=[last])
     return cb.chain()
 
 
@@ -265,7 +269,9 @@ def output_case(spec):
     # (b) RLIMIT_FSIZE grid
     if "fsize" in spec["faults"]:
         grid = sorted(set([0, 1, 100, 4096, 65536, 999999, 3999999, 4000000, 4000001, 7999999, 8000001, total - 1, total, total + 1, total // 2, total // 3]
-                          + [min(sizes.values()) - 1, min(sizes.values()), min(sizes.values()) + 1] + [int(total * f) for f in spec.get("fractions", [])]))
+                          + [min(sizes.values()) - 1, min(sizes.values()), min(sizes.values()) + 1] + [int(total * f) for f in spec.get("fractions", [])]
+                          # cuts inside the LAST row(s) of every single output file (also rows larger than a small writer buffer)
+                          + [sz - d for sz in sizes.values() for d in (1, 100, 10000, 30000)] + [sz + 1 for sz in sizes.values()]))
         for lim in [g for g in grid if 0 <= g <= total + 1]:
             harness.fresh(dump)
             p = harness.run_cb(binary, d, coin, cbname, dump, rlimits={"RLIMIT_FSIZE": lim}, ignore_sigxfsz=True, timeout=300)
